@@ -1,0 +1,27 @@
+//go:build verif
+
+// Contracts for the entry points of the FRI verifier of this curve (comment-only; installed by /verif/gcv
+// gen-contracts). The proof of proximity has exported fields (rounds, interactions, Merkle proof sets), so every size
+// the verifier relies on must be one it checked. Under contract: VerifyProofOfProximity is total on every proof
+// (indexing the rounds is an obligation) and returns nil only if the proof has the expected number of rounds and
+// the single-round verification of every round returned nil (end-of-iteration obligation). The single-round
+// verification itself and VerifyOpening (Fiat-Shamir derivations, Merkle paths, folding relation; slices of arrays
+// of structs that hold slices) are not under contract: the former is an opaque call here (their shape checks were added by the repair of finding F39 and are
+// exercised by its demonstration, not proved).
+
+package fri
+
+//@ func radixTwoFri.VerifyProofOfProximity
+//@ layer ring fr.Element
+//@ option opaque-calls
+//@ option nomerge
+//@ ghost roundok = false
+//@ cut after call verifyProofOfProximitySingleRound #*
+//@ + ghost roundok = isnil(callresult)
+//@ loop 0
+//@ + ghost roundok = false
+//@ + invariant[rounds] 0 <= i && i <= len(proof.Rounds) && len(proof.Rounds) == 1
+//@ + backedge[every-round-verified] roundok
+//@ ensures[shape] isnil(result) ==> len(proof.Rounds) == 1
+//@ modifies nothing
+//@ end
